@@ -537,10 +537,19 @@ def check_scenarios(ctx, model, falcon, testing, seeds, asgi_choice):
     import random
     cases, metas = [], []
     for seed in seeds:
-        rng = random.Random(seed)
         init_known(falcon)
-        sc = build_scenario(rng, falcon)
-        asgi = asgi_choice(rng)
+        if isinstance(seed, dict):
+            # a fixed scenario from corpus/ (no randomness)
+            sc = dict(classes=[], hist=[], scripts=[], ex=None,
+                      writes={'status': None, 'text': None, 'data': None, 'media': None, 'headers': []},
+                      accept=seed.get('accept'), xml=True, handlers='default',
+                      site='render', render_media=seed['render_media'])
+            asgi = bool(seed.get('asgi'))
+            seed = 'corpus:%s:%d' % (seed['render_media'], asgi)
+        else:
+            rng = random.Random(seed)
+            sc = build_scenario(rng, falcon)
+            asgi = asgi_choice(rng)
         obs, ncfg, reg_ok = run_scenario(falcon, testing, sc, asgi)
         cases.append(model_case(falcon, sc, ncfg))
         metas.append((seed, sc, asgi, obs, ncfg, reg_ok))
@@ -668,6 +677,7 @@ def main(ctx):
     model = common.Model(ctx)
     logging.getLogger('falcon').setLevel(logging.CRITICAL + 1)
     for o in common.corpus('C04'):
+        o.pop('_file', None)
         replay(ctx, o)
     ctx.cov['rule'] = ('one scenario = random exception hierarchy (<=8 user classes, multiple inheritance) x registration '
                        'history (<=6, tuples, non-exception entries) x raise site x exception object with random attributes x '
@@ -693,7 +703,11 @@ def replay(ctx, obj):
     import falcon
     from falcon import testing
     model = common.Model(ctx)
-    if 'scenario_seed' not in obj:
+    if 'render_media' in obj and 'scenario_seed' not in obj:
+        check_scenarios(ctx, model, falcon, testing, [obj], None)
+        ctx.note_case('replay-' + repr(sorted(obj.items())), True)
+        return
+    if 'scenario_seed' not in obj or not isinstance(obj['scenario_seed'], int):
         return main(ctx)
     asgi = bool(obj.get('asgi'))
     check_scenarios(ctx, model, falcon, testing, [obj['scenario_seed']], lambda rng: (rng.random(), asgi)[1])
